@@ -386,6 +386,27 @@ def build():
     w.contract(SER, '_parse_array_descriptor', params={'_tag': 'Obj', 'desc': 'Bin', 'ctx': 'PCtx'}, returns='ArrD', ghost={'g_anc': 'Seq[Obj]', 'g_dims': 'int'}, modifies=['$alloc'],
         ghost_after=dict(GA_ANC, **{'els = desc.read_ui16()': [('g_dims', 'els')]}), ensures=['result.dim_len == -1', 'g_dims == 1'] + ANC, raises={'NotImplementedError': {}},
         hints={'ext_funcs': PXS, 'ghost_out': ['g_anc', 'g_dims']})
+    # the cardinality an element is described with: exactly (required, single/multi) of the pointer / global -- the four combinations map onto the four wire values
+    # (the describers above assume cardinality_from_ptr as the function CARD of the pointer; here the function itself, with its two callees)
+    QLT14 = 'edb/edgeql/qltypes.py'; ENUMS14 = 'edb/server/compiler/enums.py'
+    w.enum('IrCard', QLT14, 'Cardinality'); w.enum('SCard', QLT14, 'SchemaCardinality')
+    w.contract(QLT14, 'Cardinality.from_schema_value', params={'cls': 'none', 'required': 'bool', 'card': 'SCard'}, returns='IrCard', pure=True, requires=['card != SCard.Unknown'],
+        ensures=['result == (IrCard.ONE if required else IrCard.AT_MOST_ONE) if card == SCard.One else result == (IrCard.AT_LEAST_ONE if required else IrCard.MANY)'])
+    w.contract(ENUMS14, 'cardinality_from_ir_value', params={'card': 'IrCard'}, returns='Cardinality', requires=['card != IrCard.UNKNOWN'],
+        ensures=['(result == Cardinality.AT_MOST_ONE) == (card == IrCard.AT_MOST_ONE)', '(result == Cardinality.ONE) == (card == IrCard.ONE)',
+                 '(result == Cardinality.MANY) == (card == IrCard.MANY)', '(result == Cardinality.AT_LEAST_ONE) == (card == IrCard.AT_LEAST_ONE)'])
+    w.contract(QLT14, 'SchemaCardinality.is_multi', params={'self': 'SCard'}, returns='bool', ensures=['result == (self == SCard.Many)', 'self != SCard.Unknown'],
+        raises={'ValueError': dict(only_if='self == SCard.Unknown')})
+    w.contract(QLT14, 'SchemaCardinality.is_single', params={'self': 'SCard'}, returns='bool', ensures=['result == (self == SCard.One)', 'self != SCard.Unknown'],
+        raises={'ValueError': dict(only_if='self == SCard.Unknown')})
+    w.contract(QLT14, 'SchemaCardinality.is_known', params={'self': 'SCard'}, returns='bool', pure=True, ensures=['result == (self != SCard.Unknown)'])
+    w.refclass('PtrS', {}); w.ufunc('PREQ', ['PtrS'], 'bool'); w.ufunc('PSCARD', ['PtrS'], 'SCard')
+    w.ext_methods['PtrS.get_required'] = dict(params={'schema': 'Obj'}, returns='bool', returns_expr='PREQ(self)', modifies=[])
+    w.ext_methods['PtrS.get_cardinality'] = dict(params={'schema': 'Obj'}, returns='SCard', returns_expr='PSCARD(self)', modifies=[])
+    w.contract(SER, 'cardinality_from_ptr', params={'ptr': 'PtrS', 'schema': 'Obj'}, returns='Cardinality', requires=['PSCARD(ptr) != SCard.Unknown'],
+        ensures=['(result == Cardinality.ONE) == (PREQ(ptr) and PSCARD(ptr) == SCard.One)', '(result == Cardinality.AT_MOST_ONE) == (not PREQ(ptr) and PSCARD(ptr) == SCard.One)',
+                 '(result == Cardinality.AT_LEAST_ONE) == (PREQ(ptr) and PSCARD(ptr) == SCard.Many)', '(result == Cardinality.MANY) == (not PREQ(ptr) and PSCARD(ptr) == SCard.Many)'],
+        hints={'use_contract': ['qltypes.Cardinality.from_schema_value', 'enums.cardinality_from_ir_value']})
     return w
 
 # ---------------------------------------------------------------------------------------------------------------------
